@@ -1,0 +1,35 @@
+//go:build verif
+
+// Contracts for the deductive verifier in /verif (comment-only; compiled only with -tags verif).
+package txpool
+
+// C04: the expiry index of the replay cache.  Bucket i covers [TimeBase + 60 i, TimeBase + 60 (i+1)).
+//@ pred wfTB(b *TimeBuckets) = b != nil && b.TimeBase % 60 == 0 && b.cap >= 1 && b.cap <= 1<<30 && len(b.buckets) <= 1<<30
+
+//@ func (*TimeBuckets).getBucketIndex   pure
+//@   props C04
+//@   requires timeBucket != nil
+//@   ensures result == int(time / 60) - int(timeBucket.TimeBase / 60)
+//@   nopanic
+
+//@ func (*TimeBuckets).Add
+//@   props C04
+//@   requires wfTB(timeBucket)
+//@   let ix = int(time / 60) - int(timeBucket.TimeBase / 60)
+//@   ensures ix < 0 ==> result == ErrTimeBucketTime && sameSlice(timeBucket.buckets, old(timeBucket.buckets)) && timeBucket.TimeBase == old(timeBucket.TimeBase)
+//@   ensures ix >= 0 ==> result == nil && wfTB(timeBucket) && timeBucket.TimeBase == old(timeBucket.TimeBase) && ix < len(timeBucket.buckets) && len(timeBucket.buckets) >= old(len(timeBucket.buckets))
+//@   ensures ix >= 0 ==> len(timeBucket.buckets[ix]) >= 1 && timeBucket.buckets[ix][len(timeBucket.buckets[ix]) - 1] == hash
+//@   ensures ix >= 0 && ix < old(len(timeBucket.buckets)) ==> len(timeBucket.buckets[ix]) == old(len(timeBucket.buckets[ix])) + 1
+//@   ensures ix >= 0 ==> forall(i, 0, old(len(timeBucket.buckets)), i != ix ==> sameSlice(timeBucket.buckets[i], old(timeBucket.buckets[i])))
+//@   nopanic
+
+//@ func (*TimeBuckets).Expire
+//@   props C04
+//@   requires wfTB(timeBucket)
+//@   let nb = int(newTimeBase / 60) - int(timeBucket.TimeBase / 60)
+//@   ensures nb <= 0 ==> len(result) == 0 && sameSlice(timeBucket.buckets, old(timeBucket.buckets)) && timeBucket.TimeBase == old(timeBucket.TimeBase)
+//@   ensures nb > 0 ==> timeBucket.TimeBase == (newTimeBase / 60) * 60 && len(timeBucket.buckets) == old(len(timeBucket.buckets)) - min(nb, old(len(timeBucket.buckets)))
+//@   ensures nb > 0 ==> forall(i, 0, len(timeBucket.buckets), sameSlice(timeBucket.buckets[i], old(timeBucket.buckets[i + min(nb, len(timeBucket.buckets))])))
+//@   ensures wfTB(timeBucket)
+//@   invariant @loop 0: 0 <= i && i <= newBaseIndex && newBaseIndex <= len(timeBucket.buckets) && sameSlice(timeBucket.buckets, old(timeBucket.buckets)) && timeBucket.TimeBase == old(timeBucket.TimeBase) && fresh(result) && unchanged(timeBucket.buckets)
+//@   nopanic
